@@ -106,26 +106,29 @@ type checkCtx struct {
 	strictNew bool // an undischarged obligation that is in neither ledger is a violation (frame sweep)
 	frontierLedger map[string]bool // obligations known to be undecided on the unchanged tree
 	frontierFuncs  map[string]bool // functions that have at least one such obligation
+	provedFuncs    map[string]bool // functions with at least one proved obligation in the ledger
 	generated map[string]bool
 }
 
 // newRefutedInCleanFunction: the obligation is in neither ledger, the solver REFUTED it (a model exists under everything
-// assumed - not a timeout), and the function it belongs to has no undecided obligation on the unchanged tree: either the
-// function is new or it was entirely proved. Such an obligation is reported. New undecided obligations in functions that
+// assumed - not a timeout), and the function it belongs to is known to the ledger and has no undecided obligation on the
+// unchanged tree: it was entirely proved. Such an obligation is reported. New undecided obligations in functions that
 // already have a frontier stay undecided (the region is imprecise anyway, and harmless edits rename its obligations).
 func (c *checkCtx) newRefutedInCleanFunction(g *gen, o *Obligation) bool {
 	if o.Result != "sat" || g == nil {
 		return false
 	}
 	switch o.Kind {
-	case "nil", "index", "slice", "typeassert", "div", "panic", "makeslice":
+	case "nil", "index", "slice", "typeassert", "div", "panic", "makeslice", "warn":
 	default:
-		return false
+		if !(strings.HasPrefix(o.Kind, "call/") && strings.HasPrefix(o.Label, "warn-node")) {
+			return false
+		}
 	}
 	if c.frontierFuncs == nil {
 		c.frontierFuncs = map[string]bool{}
 		for name := range c.frontierLedger {
-			for _, kind := range []string{"/nil/", "/index/", "/slice/", "/typeassert/", "/div/", "/panic/", "/makeslice/", "/nilarg/", "/call/", "/post/", "/loop#"} {
+			for _, kind := range []string{"/nil/", "/index/", "/slice/", "/typeassert/", "/div/", "/panic/", "/makeslice/", "/nilarg/", "/call/", "/post/", "/loop#", "/warn/"} {
 				if i := strings.Index(name, kind); i > 0 {
 					c.frontierFuncs[name[:i]] = true
 					break
@@ -133,7 +136,27 @@ func (c *checkCtx) newRefutedInCleanFunction(g *gen, o *Obligation) bool {
 			}
 		}
 	}
-	return !c.frontierFuncs[g.key]
+	if c.frontierFuncs[g.key] {
+		return false
+	}
+	if o.Kind == "warn" && strings.HasPrefix(o.Label, "format is a constant") {
+		return true // a syntactic fact about the call itself: no caller's context could change it, new function or not
+	}
+	// only functions the ledger knows: a function that is new (an extracted helper, typically) is verified without the
+	// context its callers provide, and a refutation there says more about missing preconditions than about the code - the
+	// second harmless corpus had three such alarms against one seeded change the wider rule detected
+	if c.provedFuncs == nil {
+		c.provedFuncs = map[string]bool{}
+		for name := range c.provedLedger {
+			for _, kind := range []string{"/nil/", "/index/", "/slice/", "/typeassert/", "/div/", "/panic/", "/makeslice/", "/nilarg/", "/call/", "/post/", "/loop#", "/warn/"} {
+				if i := strings.Index(name, kind); i > 0 {
+					c.provedFuncs[name[:i]] = true
+					break
+				}
+			}
+		}
+	}
+	return c.provedFuncs[g.key]
 }
 
 // scratchFieldExists: name is "checkers.(T).f/scratch/..." - does type T of package checkers still have a field f?
